@@ -61,6 +61,7 @@ type task struct {
 	msgRet  []int64
 	child   *childProc // non-nil: this writer is a separate OS process
 	opIdx   int
+	lineCnt int
 	seen    uint64 // poll-style reads: entries consumed so far through this handle
 }
 
@@ -228,6 +229,9 @@ type world struct {
 	sent     map[string]bool // every tag whose Send returned without error
 	viol     *sim.Violation
 	lastFull []string
+	// long-log mode
+	prefilled int
+	lineEvery int
 }
 
 func (w *world) fail(sig, detail string) {
@@ -247,6 +251,13 @@ func (w *world) yield(point string) {
 		return // not a simulator task (the scheduler's own oracle reads)
 	}
 	switch point {
+	case "get.line", "send.countLine":
+		// yields inside the scan loops (one per line): taken every lineEvery-th line only
+		t.lineCnt++
+		if w.lineEvery <= 0 || t.lineCnt%w.lineEvery != 0 {
+			return
+		}
+		w.stats.Fault("preempt-inside-a-scan")
 	case "send.beforeLock":
 		t.msgCall = append(t.msgCall, w.tick())
 	case "send.afterUnlock":
@@ -649,6 +660,31 @@ func (w *world) run(tier string) (bool, interface{}) {
 		nChildren = 1 + tp.Choose(2, "children")
 	}
 	tagN := 0
+	// a long log of middle-sized lines written before the tasks start (more than the
+	// readers' 64 KiB initial buffer holds), and pre-emption inside the scan loops
+	if !big && tp.Bool(1, 4, "longLog") {
+		ph, err := file_storage.NewFileStorage(w.data, w.lock)
+		if err != nil {
+			panic(err)
+		}
+		cnt := 90 + tp.Choose(60, "prefillCount")
+		for i := 0; i < cnt; i++ {
+			tg := fmt.Sprintf("t%d", tagN)
+			tagN++
+			m := withFields(storage.Message{Event: "prefill", Data: payload(tg, 600+tp.Choose(400, "prefillSize"))}, tg)
+			call := w.tick()
+			if err := ph.Send(m); err != nil {
+				panic(err)
+			}
+			w.sent[tg] = true
+			// part of the history: a completed append by a client of its own
+			w.hist = append(w.hist, histOp{client: 1000, input: logInput{Send: []string{tg}}, output: logOutput{Offsets: []uint64{uint64(i)}}, call: call, ret: w.tick()})
+		}
+		ph.Close()
+		w.prefilled = cnt
+		w.lineEvery = []int{1, 3, 11, 37}[tp.Choose(4, "lineEvery")]
+		w.stats.Fault("long-log")
+	}
 	for i := 0; i < nw; i++ {
 		h, err := file_storage.NewFileStorage(w.data, w.lock)
 		if err != nil {
